@@ -20,6 +20,17 @@ Definition mk_spec (kind : nat) (N : list R) : spec :=
   | _ => TotalMoles (lf N 0%nat)
   end.
 
+(** the specification an entry point of the library derives from a profile (kind as in [mk_spec]) *)
+Definition from_profile_spec (kind S G : nat) (w : nat -> R) (rho0 : nat -> nat -> R) : spec :=
+  match kind with
+  | O => ChemicalPotential
+  | Datatypes.S O => moles_from_profile G w rho0
+  | _ => total_moles_from_profile S G w rho0
+  end.
+
+(** component index given as a list *)
+Definition lfn (l : list nat) : nat -> nat := fun k => nth k l 0%nat.
+
 (** the norm with the size as an integer literal (so that [interval] sees a constant) *)
 Definition res_norm_z (S G : nat) w e rho rhob sp : R :=
   sqrt (sumsq S G w e rho rhob sp) / sqrt (IZR (Z.of_nat (S * G + S))).
